@@ -84,6 +84,9 @@ def qU (n : UInt64) : UInt64 :=
   let r := d % 3
   if r > 0 then q + 1 else q
 
+/-- Overflow-free quorum formula (`proposed-fixes/C12-quorum-overflow.diff`): `n - n/3`. -/
+def qUFix (n : UInt64) : UInt64 := n - n / 3
+
 /-- The same formulas over unbounded naturals (what the code computes when nothing wraps). -/
 def fN (n : Nat) : Nat := (n - 1) / 3
 
